@@ -87,7 +87,7 @@ CLAIMS = {
              "initialize_sparse agree. Does not decide value() against the docstring formula, "
              "nor the internals of Cox's risk-set recursions (opaque operators), nor floating "
              "point agreement."
-             " Datafits used through their prox (Pinball, SqrtQuadratic): the prox output is stationary for the datafit's own value() on sign regions of a two-sample problem and prox_conjugate is the Moreau transform of prox. Every datafit accessor that exists in a dense and a _sparse version (gradients, coordinate / group / global Lipschitz constants; spectral norms compared through the matrix they are taken of) and full_grad_sparse against the stacked coordinate gradients are equal terms on a 3x3 design with structural zeros. Dense and CSC gradient builders of every solver family are equal terms on a 3x3 design with structural zeros, non-contiguous groups and a permuted working set; Cox: raw_grad is the derivative of value(), the risk-set operators are adjoint pairs and match their definitions on six tie / censoring patterns under both conventions. Lazy attributes (Cox tie groups, Xty ...) are assigned on every path of the initialisation that assigns them at all; no accessor writes into the object's own state (results are fresh arrays); accessor pairs are also compared on a 2x4 design whose group is unsorted, not a contiguous run, and wider than the sample count.",
+             " Datafits used through their prox (Pinball, SqrtQuadratic): the prox output is stationary for the datafit's own value() on sign regions of a two-sample problem and prox_conjugate is the Moreau transform of prox. Every datafit accessor that exists in a dense and a _sparse version (gradients, coordinate / group / global Lipschitz constants; spectral norms compared through the matrix they are taken of) and full_grad_sparse against the stacked coordinate gradients are equal terms on a 3x3 design with structural zeros. Dense and CSC gradient builders of every solver family are equal terms on a 3x3 design with structural zeros, non-contiguous groups and a permuted working set; Cox: raw_grad is the derivative of value(), the risk-set operators are adjoint pairs and match their definitions on six tie / censoring patterns under both conventions. Lazy attributes (Cox tie groups, Xty ...) are assigned on every path of the initialisation that assigns them at all; no accessor writes into the object's own state (results are fresh arrays); accessor pairs are also compared on a 2x4 design whose group is unsorted, not a contiguous run, and wider than the sample count. Every constructor parameter of a datafit is in get_spec and params_to_dict, so compiled_clone round-trips it (use_efron).",
         design_ref="DESIGN.md §2 L5, §3.5 R-SIB/R-DERIV, §4 C06",
         note="Trusted: identity list of sa/algebra.py, the lifting of CSC column loops to "
              "mask-weighted sums, domain table (Logistic labels in {-1,1}).",
@@ -114,7 +114,7 @@ CLAIMS = {
              "top-k sign direction decreases the prox objective built from SLOPE.value() (necessary "
              "condition at witnesses). Weighted penalties with a zero weight stay constrained. Global optimality (beyond stationarity) of the closed "
              "forms prox_SCAD, prox_05, prox_2_3, prox_log_sum, prox_block_2_05, prox_SLOPE is "
-             "not claimed. Every return of a prox method depends on `self.positive`; prox_log_sum is lifted at exact ties of its regime test (empty bisection bracket: an unbound local read is a violation).",
+             "not claimed. Every return of a prox method depends on `self.positive`; prox_log_sum is lifted at exact ties of its regime test (empty bisection bracket: an unbound local read is a violation). Every constructor parameter of a penalty is in get_spec and params_to_dict (a dropped `positive` makes the compiled clone unconstrained).",
         design_ref="DESIGN.md §3.5 R-PROXFOC, §3.6 R-PROXFOC-BLOCK, §4 C07",
         note="Witness values only select branches; hyper-parameters are assumed positive and "
              "s < gamma (admissible step range).",
@@ -173,7 +173,7 @@ CLAIMS = {
              "input validation converts to CSC (no other sparse format reaches a kernel); "
              "float32 flag plumbing is under C11; solver objects store no state. Equality of "
              "converged results is not decided."
-             " The dense and CSC copies of every solver kernel (coordinate / block epochs, gradient builders, prox-Newton direction and line search) and the CSC helper functions are lifted on a 3x3 design with structural zeros (and an empty column for the helpers) and must leave equal terms in coefficients, model fit and returned arrays. spectral_norm of an all-empty block returns 0, as the dense norm does. Every solver that reads X.indptr / X.indices is entered through a path that converts sparse X to CSC or refuses other formats. Solver state (working set, iterate, model fit) is not defined or reordered under a storage test in one arm only; multitask full_grad_sparse is the stack of gradient_j_sparse.",
+             " The dense and CSC copies of every solver kernel (coordinate / block epochs, gradient builders, prox-Newton direction and line search) and the CSC helper functions are lifted on a 3x3 design with structural zeros (and an empty column for the helpers) and must leave equal terms in coefficients, model fit and returned arrays. spectral_norm of an all-empty block returns 0, as the dense norm does. Every solver that reads X.indptr / X.indices is entered through a path that converts sparse X to CSC or refuses other formats. Solver state (working set, iterate, model fit) is not defined or reordered under a storage test in one arm only; multitask full_grad_sparse is the stack of gradient_j_sparse. spec_to_float32 derives array types from the attribute's own type (rank preserved).",
         design_ref="DESIGN.md §3.2 R-CSC, §4 C10",
         note="Kernel-level dense/sparse agreement of formulas is decided under C06 (datafit "
              "accessors).",
@@ -188,7 +188,7 @@ CLAIMS = {
              "float fields pass the float32 flag; every fit ends in _glm_fit/solver.solve; "
              "None-default arguments are not dereferenced unguarded; the (grp_indices, grp_ptr) "
              "pair of grp_converter reaches the group penalty and datafit unchanged. Does not decide "
-             "stationarity (C01) nor docstring formulas. Every path from solver.solve() to a return of _glm_fit refreshes the fitted attributes of the main path. Penalties built in fit / path receive the weights unless built under `self.weights is None`.",
+             "stationarity (C01) nor docstring formulas. Every path from solver.solve() to a return of _glm_fit refreshes the fitted attributes of the main path. Penalties built in fit / path receive the weights unless built under `self.weights is None`. Constructor parameters of penalties / datafits survive compiled_clone (get_spec / params_to_dict agreement).",
         design_ref="DESIGN.md §3.3 R-PLUMB, §4 C11",
         note="Alias table (max_epochs->max_pn_iter, C->alpha) is reviewed by hand.",
         technique="data-flow of self.<param> into resolved constructor bindings",
@@ -200,7 +200,7 @@ CLAIMS = {
              "targets are never compared with raw class labels and the +/-1 mapping is "
              "arithmetic on the encoded indices. Probability normalisation and monotonicity "
              "are runtime behaviour of sklearn mix-ins and are not decided."
-             " Which datafits make an estimator a classifier is decided by one subclass-aware isinstance test shared by fit and predict; no class-name test mentions a datafit that has subclasses. `classes_` comes from the encoder fitted on the raw targets; prediction methods read `coef_[0]` only in the binary case; a hand-written exponential of a decision value is shifted by its row-wise maximum (or otherwise bounded above), library links excepted. Every return of _glm_fit after solve() assigns coef_ / intercept_; prediction methods never test for the presence of an attribute that only one branch of the fit assigns.",
+             " Which datafits make an estimator a classifier is decided by one subclass-aware isinstance test shared by fit and predict; no class-name test mentions a datafit that has subclasses. `classes_` comes from the encoder fitted on the raw targets; prediction methods read `coef_[0]` only in the binary case; a hand-written exponential of a decision value is shifted by its row-wise maximum (or otherwise bounded above), library links excepted. Every return of _glm_fit after solve() assigns coef_ / intercept_; prediction methods never test for the presence of an attribute that only one branch of the fit assigns. `coef_[0]` is read only on the binary side of a class-count test; no axis-less squeeze assembles fitted arrays.",
         design_ref="DESIGN.md §3.3 R-OVR, §4 C12",
         note="Structural necessary conditions only.",
         technique="AST rules on _glm_fit (last-assignment and kind-of-value checks)",
@@ -247,7 +247,7 @@ CLAIMS = {
              "coefficient arrays occur only under the intercept flag; offset subscripts of "
              "pointer arrays (indptr[j+1], grp_ptr[g+1]) are within the loop bound. "
              "Value-dependent indices (contents of user arrays) are an input contract."
-             " Every solver kernel, fixed-point score and CSC helper is lifted on small concrete shapes (3x3 design with structural zeros / an empty column, non-contiguous groups, permuted working sets) where every subscript is bounds-checked by the lifter: an out-of-range index on those shapes is a violation. Across calls: a kernel that indexes a parameter by coordinates is never handed an array restricted to the working set; initialize / initialize_sparse is control-dependent on the storage dispatch only, so lazy attributes of earlier data are never read. Whole-array slot arguments match the per-feature attributes of accepted implementations; Anderson buffers and reshapes sized with the working-set size see the working set that was cut to that size. Arrays allocated with np.empty and filled entry by entry receive a store on every path through an iteration. Multitask arrays (capital spelling) carry a task axis: a loop bound taken from the wrong entry of W.shape is an index-kind violation; slot methods that loop over len(w) and subscript a local with the extent of an own array attribute demand that extent from every caller.",
+             " Every solver kernel, fixed-point score and CSC helper is lifted on small concrete shapes (3x3 design with structural zeros / an empty column, non-contiguous groups, permuted working sets) where every subscript is bounds-checked by the lifter: an out-of-range index on those shapes is a violation. Across calls: a kernel that indexes a parameter by coordinates is never handed an array restricted to the working set; initialize / initialize_sparse is control-dependent on the storage dispatch only, so lazy attributes of earlier data are never read. Whole-array slot arguments match the per-feature attributes of accepted implementations; Anderson buffers and reshapes sized with the working-set size see the working set that was cut to that size. Arrays allocated with np.empty and filled entry by entry receive a store on every path through an iteration. Multitask arrays (capital spelling) carry a task axis: a loop bound taken from the wrong entry of W.shape is an index-kind violation; slot methods that loop over len(w) and subscript a local with the extent of an own array attribute demand that extent from every caller. CSC triples are passed as (data, indptr, indices) at every call site.",
         design_ref="DESIGN.md §2 L4, §3.4 R-IDX/R-SLICE, §4 C20",
         note="Extents are symbols with +/-1 offsets; G <= P is never assumed.",
         technique="index-domain inference + linear offset comparison of loop bounds and "
@@ -273,7 +273,7 @@ CLAIMS = {
              "entry is bound, computed after the last mutation of the iteration, is datafit "
              "value + penalty value with the intercept excluded from the penalty; the "
              "returned stopping value is the one tested; it is bound with a zero budget; "
-             "n_iter_ = len(history). The gradient handed to the score behind the tolerance test is computed at the very coefficients the score is taken at (and that are returned): a gradient taken at an auxiliary point of an accelerated method is a violation.",
+             "n_iter_ = len(history). The gradient handed to the score behind the tolerance test is computed at the very coefficients the score is taken at (and that are returned): a gradient taken at an auxiliary point of an accelerated method is a violation. In _glm_fit the start vector is not modified between the computation of its model fit and solve().",
         design_ref="DESIGN.md §3.1 R-HIST, §4 C17",
         note="Numerical equality of each entry with the true objective is not decided.",
         technique="CFG path rules (must-pass-through, reaching definitions, freshness)",
